@@ -437,7 +437,7 @@ pub fn apply_single<P: TP, V: Val>(side: &mut Side<P, V>, op: &Op, env: &mut Env
         }
         Op::Collect { .. } => {
             env.cur_op = "collect";
-            let new: PrefixMap<P, V> = side.map.iter().map(|(p, v)| (p.clone(), v.clone())).collect();
+            let new: PrefixMap<P, V> = side.map.iter().take(iter_limit(&side.model)).map(|(p, v)| (p.clone(), v.clone())).collect();
             side.map = new;
             side.canonical = true;
             side.drift = 0;
